@@ -4,8 +4,10 @@ import (
 	"fmt"
 	"go/token"
 	"go/types"
+	"os"
 	"sort"
 	"strings"
+	"time"
 
 	"govc/smt"
 
@@ -65,7 +67,11 @@ func (e *Engine) Verify(fc *FnContract) []*FuncReport {
 		e.forced = it.forced
 		e.undecided = nil
 		e.undecidedSeen = map[string]bool{}
+		t0 := time.Now()
 		rep := e.verifyOnce(fc, it.label)
+		if os.Getenv("GOVC_DEBUG") != "" {
+			fmt.Fprintf(os.Stderr, "path %q: %d obligations, %d undecided, %.2fs (work %d, done %d) undecided=%v forced=%v\n", it.label, len(rep.Obls), len(e.undecided), time.Since(t0).Seconds(), len(work), len(out), e.undecided, it.forced)
+		}
 		if rep.Err != "" {
 			e.forced = nil
 			return []*FuncReport{rep}
@@ -90,8 +96,7 @@ func (e *Engine) Verify(fc *FnContract) []*FuncReport {
 			if side {
 				l = "T"
 			}
-			short := strings.NewReplacer("/", "", ":", "", "#", "").Replace(u)
-			work = append(work, item{m, fmt.Sprintf("%s.%s%s", it.label, short, l)})
+			work = append(work, item{m, it.label + l})
 		}
 	}
 	e.forced = nil
@@ -100,6 +105,7 @@ func (e *Engine) Verify(fc *FnContract) []*FuncReport {
 
 func (e *Engine) verifyOnce(fc *FnContract, path string) (rep *FuncReport) {
 	e.reset()
+	e.X.ResetFresh()
 	e.callCtx = ""
 	rep = &FuncReport{Name: e.nameOf(fc.Fn), QName: fc.C.QName(), Props: fc.C.Props, Trusted: fc.C.Trusted, Path: path}
 	defer func() {
@@ -118,7 +124,7 @@ func (e *Engine) verifyOnce(fc *FnContract, path string) (rep *FuncReport) {
 	fn := fc.Fn
 	e.curName = rep.Name
 	if path != "" {
-		e.curName = rep.Name + "@" + strings.TrimPrefix(path, ".")
+		e.curName = rep.Name + "@" + path
 	}
 	e.curProps = fc.C.Props
 	e.verifying = fn
@@ -182,6 +188,12 @@ func (e *Engine) verifyOnce(fc *FnContract, path string) (rep *FuncReport) {
 			}
 			v, _ := e.evalSpec(fn.Pkg, cl.Func, as, out)
 			e.obligeAt("ensures", fmt.Sprintf("%d:%s", cl.Idx, trunc(cl.Text, 70)), v.C[0], fn.Pos())
+			// later clauses may rely on earlier ones (each is proved, in order)
+			na := len(e.Assumptions)
+			e.assume(v.C[0])
+			if len(e.Assumptions) > na {
+				e.GoalAssume[na] = true
+			}
 		}
 	}
 	rep.Obls = e.Obls
